@@ -145,6 +145,7 @@ func (x *Exec) evalCall(call *ast.CallExpr, st *State) []Term {
 	for _, f := range after {
 		f()
 	}
+	x.noteLastErr(st, fn, res)
 	return res
 }
 
@@ -156,7 +157,7 @@ func (x *Exec) countCall(st *State, fn *types.Func) {
 	for _, k := range []string{"called:" + fn.Name(), "called:" + extName(fn)} {
 		v, ok := st.ghost[k]
 		if !ok {
-			v = intLit(0)
+			v = x.ghostDefault(st, k)
 		}
 		if f, ok := foldArith("+", v, intLit(1)); ok {
 			st.ghost[k] = f
